@@ -4,6 +4,7 @@ import JS.Spec.Formats
 import JS.Generated.Tables
 import Mathlib.Tactic.IntervalCases
 import Mathlib.Data.List.Induction
+import Mathlib.Data.List.TakeDrop
 
 namespace JS.Fmt
 open JS
@@ -564,5 +565,718 @@ theorem fmtCheck_ok (env : Env) (fc : FormatChecker) (hfc : fc.checkers.all entr
       List.any_eq_true.mpr ⟨c, hin, hok⟩
     simp only [this, if_true]
     exact ⟨_, rfl⟩
+
+/-! ### (f) IPv6: hextets -/
+
+theorem hexDigits_iff (c : Char) : hexDigits.contains c = true ↔ c ∈ Spec.hexChars := by
+  rw [List.contains_iff_mem]
+  constructor
+  · revert c; decide
+  · revert c; decide
+
+theorem hextetOk_iff (p : Str) : hextetOk p = true ↔ Spec.isHexGroup p := by
+  unfold hextetOk Spec.isHexGroup
+  simp only [Bool.and_eq_true, List.all_eq_true, hexDigits_iff, decide_eq_true_eq, Bool.not_eq_true',
+    List.isEmpty_eq_false_iff]
+  constructor
+  · rintro ⟨⟨h1, h2⟩, h3⟩
+    exact ⟨List.length_pos_iff.mpr h3, h2, h1⟩
+  · rintro ⟨h1, h2, h3⟩
+    exact ⟨⟨h3, h2⟩, List.length_pos_iff.mp h1⟩
+
+theorem hextetOk_ne_nil (p : Str) (h : hextetOk p = true) : p ≠ [] := by
+  rintro rfl; exact absurd h (by decide)
+
+theorem digitChar_hex : ∀ d, d < 16 → hexDigits.contains (Nat.digitChar d) = true := by decide
+
+theorem toDigits16_mem (n : Nat) : ∀ c ∈ Nat.toDigits 16 n, hexDigits.contains c = true := by
+  induction n using Nat.strongRecOn with
+  | _ n ih =>
+    rw [Nat.toDigits_eq_if (by decide)]
+    by_cases hn : n < 16
+    · rw [if_pos hn]
+      intro c hc
+      rw [List.mem_singleton] at hc
+      subst hc
+      exact digitChar_hex n hn
+    · rw [if_neg hn]
+      intro c hc
+      rcases List.mem_append.mp hc with hc | hc
+      · exact ih (n / 16) (by omega) c hc
+      · rw [List.mem_singleton] at hc
+        subst hc
+        exact digitChar_hex _ (by omega)
+
+theorem hexStr_ok (n : Nat) (h : n < 65536) : hextetOk (hexStr n) = true := by
+  unfold hextetOk hexStr
+  have h1 : (Nat.toDigits 16 n).length ≤ 4 :=
+    (Nat.length_toDigits_le_iff (by decide) (by decide)).mpr (by omega)
+  simp only [Bool.and_eq_true, List.all_eq_true, decide_eq_true_eq, Bool.not_eq_true',
+    List.isEmpty_eq_false_iff]
+  exact ⟨⟨toDigits16_mem n, h1⟩, Nat.toDigits_ne_nil⟩
+
+/-! ### (g) IPv6: the positions of empty parts -/
+
+theorem emptiesFrom_noEmpty (k : Nat) (l : List Str) (h : ∀ p ∈ l, p ≠ []) : emptiesFrom k l = [] := by
+  induction l generalizing k with
+  | nil => rfl
+  | cons p ps ih =>
+    have hp : p.isEmpty = false := by
+      rw [List.isEmpty_eq_false_iff]; exact h p (by simp)
+    simp only [emptiesFrom, hp, Bool.false_eq_true, if_false]
+    exact ih _ (fun q hq => h q (List.mem_cons_of_mem _ hq))
+
+theorem emptiesFrom_eq_nil (k : Nat) (l : List Str) (h : emptiesFrom k l = []) : ∀ p ∈ l, p ≠ [] := by
+  induction l generalizing k with
+  | nil => simp
+  | cons p ps ih =>
+    simp only [emptiesFrom] at h
+    split at h
+    · cases h
+    · rename_i hp
+      intro q hq
+      rcases List.mem_cons.mp hq with rfl | hq
+      · rintro rfl; exact hp rfl
+      · exact ih _ h q hq
+
+theorem emptiesFrom_mid (k : Nat) (A B : List Str) (hA : ∀ p ∈ A, p ≠ []) (hB : ∀ p ∈ B, p ≠ []) :
+    emptiesFrom k (A ++ [] :: B) = [k + A.length] := by
+  induction A generalizing k with
+  | nil => simp [emptiesFrom, emptiesFrom_noEmpty _ B hB]
+  | cons p ps ih =>
+    have hp : p.isEmpty = false := by
+      rw [List.isEmpty_eq_false_iff]; exact hA p (by simp)
+    simp only [List.cons_append, emptiesFrom, hp, Bool.false_eq_true, if_false]
+    rw [ih _ (fun q hq => hA q (List.mem_cons_of_mem _ hq)), List.length_cons]
+    congr 1; omega
+
+theorem emptiesFrom_singleton (k : Nat) (l : List Str) (i : Nat) (h : emptiesFrom k l = [i]) :
+    ∃ A B, l = A ++ [] :: B ∧ i = k + A.length ∧ (∀ p ∈ A, p ≠ []) ∧ (∀ p ∈ B, p ≠ []) := by
+  induction l generalizing k with
+  | nil => cases h
+  | cons p ps ih =>
+    simp only [emptiesFrom] at h
+    split at h
+    · rename_i hp
+      rw [List.isEmpty_iff] at hp
+      subst hp
+      simp only [List.cons.injEq] at h
+      exact ⟨[], ps, rfl, by simp [h.1], by simp, emptiesFrom_eq_nil _ _ h.2⟩
+    · rename_i hp
+      obtain ⟨A, B, rfl, hi, hA, hB⟩ := ih _ h
+      refine ⟨p :: A, B, rfl, by simp only [List.length_cons]; omega, ?_, hB⟩
+      intro q hq
+      rcases List.mem_cons.mp hq with rfl | hq
+      · rintro rfl; exact hp rfl
+      · exact hA q hq
+
+/-! ### (h) IPv6: the part list after the suffix step -/
+
+/-- the closed form of the `[skip]` branch of `ipv6PartsOk` -/
+theorem partsOk_of_empties_singleton (parts : List Str) (skip : Nat)
+    (h : emptiesFrom 1 parts.tail.dropLast = [skip]) :
+    ipv6PartsOk parts =
+      (if parts.length > 9 then false else
+        if ((parts.headD []).isEmpty &&
+              (if (parts.headD []).isEmpty then skip - 1 else skip) != 0) then false
+        else if ((parts.getLastD []).isEmpty &&
+              (if (parts.getLastD []).isEmpty then parts.length - skip - 1 - 1
+                else parts.length - skip - 1) != 0) then false
+        else if (if (parts.headD []).isEmpty then skip - 1 else skip) +
+              (if (parts.getLastD []).isEmpty then parts.length - skip - 1 - 1
+                else parts.length - skip - 1) ≥ 8 then false
+        else (parts.take (if (parts.headD []).isEmpty then skip - 1 else skip)).all hextetOk &&
+          (parts.drop (parts.length - (if (parts.getLastD []).isEmpty then parts.length - skip - 1 - 1
+                else parts.length - skip - 1))).all hextetOk) := by
+  unfold ipv6PartsOk
+  rw [h]
+
+theorem partsOk_skip (p0 pl : Str) (A B : List Str) (hA : ∀ p ∈ A, p ≠ []) (hB : ∀ p ∈ B, p ≠ []) :
+    ipv6PartsOk (p0 :: (A ++ [] :: B) ++ [pl]) = true ↔
+      (p0 = [] → A = []) ∧ (pl = [] → B = []) ∧
+      ((if p0 = [] then 0 else 1 + A.length) + (if pl = [] then 0 else B.length + 1) ≤ 7) ∧
+      (p0 ≠ [] → ∀ p ∈ p0 :: A, hextetOk p = true) ∧ (pl ≠ [] → ∀ p ∈ B ++ [pl], hextetOk p = true) := by
+  have hmid : (p0 :: (A ++ [] :: B) ++ [pl]).tail.dropLast = A ++ [] :: B := by
+    show ((A ++ [] :: B) ++ [pl]).dropLast = _
+    exact List.dropLast_concat
+  have hE := emptiesFrom_mid 1 A B hA hB
+  rw [← hmid] at hE
+  rw [partsOk_of_empties_singleton _ _ hE]
+  have hlen : (p0 :: (A ++ [] :: B) ++ [pl]).length = A.length + B.length + 3 := by
+    simp only [List.cons_append, List.length_cons, List.length_append, List.length_nil]; omega
+  have hhead : (p0 :: (A ++ [] :: B) ++ [pl]).headD [] = p0 := rfl
+  have hlast : (p0 :: (A ++ [] :: B) ++ [pl]).getLastD [] = pl := by
+    show ((p0 :: (A ++ [] :: B)) ++ [pl]).getLastD [] = pl
+    rw [List.getLastD_eq_getLast?, List.getLast?_concat]; rfl
+  have htake : (p0 :: (A ++ [] :: B) ++ [pl]).take (1 + A.length) = p0 :: A := by
+    have : p0 :: (A ++ [] :: B) ++ [pl] = (p0 :: A) ++ ([] :: B ++ [pl]) := by simp
+    rw [this]; exact List.take_left' (by simp; omega)
+  have hdrop : (p0 :: (A ++ [] :: B) ++ [pl]).drop (A.length + 2) = B ++ [pl] := by
+    have : p0 :: (A ++ [] :: B) ++ [pl] = (p0 :: A ++ [[]]) ++ (B ++ [pl]) := by simp
+    rw [this]; exact List.drop_left' (by simp)
+  have hdropAll : ∀ x ∈ (p0 :: (A ++ [] :: B) ++ [pl]).drop (A.length + B.length + 3),
+      hextetOk x = true := by
+    rw [List.drop_eq_nil_of_le (by omega)]; simp
+  rw [hlen, hhead, hlast]
+  have e1 : A.length + B.length + 3 - (1 + A.length) - 1 = B.length + 1 := by omega
+  have e3 : 1 + A.length - 1 = A.length := by omega
+  rw [e1, e3]
+  simp only [Nat.add_sub_cancel]
+  generalize p0 :: (A ++ [] :: B) ++ [pl] = L at htake hdrop hdropAll
+  by_cases h0 : p0 = [] <;> by_cases hl : pl = []
+  · subst h0; subst hl
+    cases A <;> cases B <;> simp_all
+  · subst h0
+    have hl' : pl.isEmpty = false := by rw [List.isEmpty_eq_false_iff]; exact hl
+    cases A with
+    | cons a A' => simp
+    | nil =>
+      simp only [List.length_nil, Nat.zero_add, Nat.add_zero] at hdrop ⊢
+      have e4 : B.length + 3 - (B.length + 1) = 2 := by omega
+      simp only [List.isEmpty_nil, hl', if_true, Bool.false_eq_true, if_false, e4, hdrop]
+      simp [hl]
+      intro hb
+      constructor
+      · rintro ⟨_, h1, h2⟩ p (hp | rfl)
+        · exact h1 p hp
+        · exact h2
+      · intro h; exact ⟨by omega, fun x hx => h x (.inl hx), h pl (.inr rfl)⟩
+  · subst hl
+    have h0' : p0.isEmpty = false := by rw [List.isEmpty_eq_false_iff]; exact h0
+    cases B with
+    | cons b B' => simp
+    | nil =>
+      simp only [List.isEmpty_nil, h0', if_true, Bool.false_eq_true, if_false, htake, List.length_nil,
+        Nat.sub_zero]
+      simp only [List.length_nil, Nat.add_zero] at hdropAll
+      simp [h0]
+      constructor
+      · rintro ⟨_, _, h, _⟩; exact ⟨by omega, h⟩
+      · rintro ⟨h1, h2⟩; exact ⟨by omega, by omega, h2, hdropAll⟩
+  · have h0' : p0.isEmpty = false := by rw [List.isEmpty_eq_false_iff]; exact h0
+    have hl' : pl.isEmpty = false := by rw [List.isEmpty_eq_false_iff]; exact hl
+    have e4 : A.length + B.length + 3 - (B.length + 1) = A.length + 2 := by omega
+    simp only [h0', hl', Bool.false_eq_true, if_false, htake, e4, hdrop]
+    simp [h0, hl]
+    constructor
+    · rintro ⟨_, _, h1, h2, h3⟩
+      exact ⟨by omega, h1, fun p hp => hp.elim (h2 p) (fun e => e ▸ h3)⟩
+    · rintro ⟨h, h1, h2⟩
+      exact ⟨by omega, by omega, h1, fun x hx => h2 x (.inl hx), h2 pl (.inr rfl)⟩
+
+theorem partsOk_noskip (parts : List Str) (hl : parts.length = 8)
+    (h : ∀ p ∈ parts, hextetOk p = true) : ipv6PartsOk parts = true := by
+  have hne : ∀ p ∈ parts, p ≠ [] := fun p hp => hextetOk_ne_nil p (h p hp)
+  have hE : emptiesFrom 1 parts.tail.dropLast = [] :=
+    emptiesFrom_noEmpty _ _ (fun p hp => hne p (List.mem_of_mem_tail (List.dropLast_subset _ hp)))
+  unfold ipv6PartsOk
+  rw [hE]
+  match parts, hl with
+  | [a, b, c, d, e, f, g, i], _ =>
+    have ha : a ≠ [] := hne a (by simp)
+    have hi : i ≠ [] := hne i (by simp)
+    simp only [List.mem_cons, List.not_mem_nil, or_false, forall_eq_or_imp, forall_eq] at h
+    simp [ha, hi, h]
+
+/-- a `::` written at the very start / end leaves an empty first / last part -/
+def wrapE (l : List Str) : List Str := if l = [] then [[]] else l
+
+theorem of_tail_dropLast (parts M : List Str) (h : parts.tail.dropLast = M) (hM : M ≠ []) :
+    ∃ p0 pl, parts = p0 :: M ++ [pl] := by
+  cases parts with
+  | nil => simp at h; exact absurd h hM
+  | cons p0 t =>
+    have ht : t ≠ [] := by
+      rintro rfl; simp at h; exact hM h
+    refine ⟨p0, t.getLast ht, ?_⟩
+    simp only [List.tail_cons] at h
+    rw [← h, List.cons_append, List.dropLast_concat_getLast]
+
+theorem partsOk_iff (parts : List Str) :
+    ipv6PartsOk parts = true ↔
+      (parts.length = 8 ∧ ∀ p ∈ parts, hextetOk p = true) ∨
+      ∃ pre post, (∀ p ∈ pre, hextetOk p = true) ∧ (∀ p ∈ post, hextetOk p = true) ∧
+        pre.length + post.length ≤ 7 ∧ parts = wrapE pre ++ [] :: wrapE post := by
+  constructor
+  · intro h
+    cases hE : emptiesFrom 1 parts.tail.dropLast with
+    | nil =>
+      left
+      unfold ipv6PartsOk at h
+      rw [hE] at h
+      simp only [gt_iff_lt, bne_iff_ne, ne_eq, ite_not, Bool.if_false_left, Bool.if_false_right,
+        Bool.and_eq_true, decide_eq_true_eq, Bool.not_eq_true', List.all_eq_true] at h
+      exact ⟨h.2.1, h.2.2.2.2⟩
+    | cons i rest =>
+      cases rest with
+      | cons j rest' =>
+        unfold ipv6PartsOk at h
+        rw [hE] at h
+        simp at h
+      | nil =>
+        right
+        obtain ⟨A, B, hM, _, hA, hB⟩ := emptiesFrom_singleton _ _ _ hE
+        obtain ⟨p0, pl, rfl⟩ := of_tail_dropLast parts _ hM (by simp)
+        obtain ⟨c1, c2, c3, c4, c5⟩ := (partsOk_skip p0 pl A B hA hB).mp h
+        by_cases h0 : p0 = [] <;> by_cases hl : pl = []
+        · obtain rfl := c1 h0
+          obtain rfl := c2 hl
+          subst h0; subst hl
+          exact ⟨[], [], by simp, by simp, by simp, by simp [wrapE]⟩
+        · obtain rfl := c1 h0
+          subst h0
+          rw [if_pos rfl, if_neg hl] at c3
+          refine ⟨[], B ++ [pl], by simp, c5 hl, by simp at c3 ⊢; omega, by simp [wrapE]⟩
+        · obtain rfl := c2 hl
+          subst hl
+          rw [if_neg h0, if_pos rfl] at c3
+          refine ⟨p0 :: A, [], c4 h0, by simp, by simp at c3 ⊢; omega, by simp [wrapE]⟩
+        · rw [if_neg h0, if_neg hl] at c3
+          refine ⟨p0 :: A, B ++ [pl], c4 h0, c5 hl, by simp at c3 ⊢; omega, by simp [wrapE]⟩
+  · rintro (⟨hl, h⟩ | ⟨pre, post, hpre, hpost, hlen, rfl⟩)
+    · exact partsOk_noskip parts hl h
+    · have nePre : ∀ p ∈ pre, p ≠ [] := fun p hp => hextetOk_ne_nil p (hpre p hp)
+      have nePost : ∀ p ∈ post, p ≠ [] := fun p hp => hextetOk_ne_nil p (hpost p hp)
+      cases pre with
+      | nil =>
+        rcases List.eq_nil_or_concat post with rfl | ⟨B, pl, hc⟩
+        · exact (partsOk_skip [] [] [] [] (by simp) (by simp)).mpr (by simp)
+        · rw [List.concat_eq_append] at hc; subst hc
+          have hpl : pl ≠ [] := nePost pl (by simp)
+          have := (partsOk_skip [] pl [] B (by simp)
+            (fun p hp => nePost p (by simp [hp]))).mpr
+            ⟨by simp, by simp [hpl], by simp [hpl] at hlen ⊢; omega, by simp, fun _ => hpost⟩
+          simpa [wrapE] using this
+      | cons p0 A =>
+        have hp0 : p0 ≠ [] := nePre p0 (by simp)
+        rcases List.eq_nil_or_concat post with rfl | ⟨B, pl, hc⟩
+        · have := (partsOk_skip p0 [] A [] (fun p hp => nePre p (by simp [hp])) (by simp)).mpr
+            ⟨by simp [hp0], by simp, by simp [hp0] at hlen ⊢; omega, fun _ => hpre, by simp⟩
+          simpa [wrapE] using this
+        · rw [List.concat_eq_append] at hc; subst hc
+          have hpl : pl ≠ [] := nePost pl (by simp)
+          have := (partsOk_skip p0 pl A B (fun p hp => nePre p (by simp [hp]))
+            (fun p hp => nePost p (by simp [hp]))).mpr
+            ⟨by simp [hp0], by simp [hpl], by simp [hp0, hpl] at hlen ⊢; omega, fun _ => hpre,
+              fun _ => hpost⟩
+          simpa [wrapE] using this
+
+/-! ### (i) IPv6: joining, the IPv4 suffix step -/
+
+theorem joinSep_append (c : Char) (X Y : List Str) (hX : X ≠ []) (hY : Y ≠ []) :
+    joinSep c (X ++ Y) = joinSep c X ++ c :: joinSep c Y := by
+  induction X with
+  | nil => exact absurd rfl hX
+  | cons x X' ih =>
+    cases X' with
+    | nil =>
+      simp only [List.cons_append, List.nil_append]
+      rw [joinSep_cons_ne c x Y hY]; rfl
+    | cons x' X'' =>
+      have := ih (by simp)
+      simp only [List.cons_append, joinSep] at this ⊢
+      rw [this]; simp
+
+theorem wrapE_ne_nil (l : List Str) : wrapE l ≠ [] := by
+  unfold wrapE; split <;> simp [*]
+
+theorem wrapE_of_ne (l : List Str) (h : l ≠ []) : wrapE l = l := by
+  unfold wrapE; rw [if_neg h]
+
+theorem joinSep_wrapE (c : Char) (l : List Str) : joinSep c (wrapE l) = joinSep c l := by
+  unfold wrapE; split
+  · subst_vars; rfl
+  · rfl
+
+theorem joinSep_skip (pre post : List Str) :
+    joinSep ':' (wrapE pre ++ [] :: wrapE post) =
+      joinSep ':' pre ++ [':', ':'] ++ joinSep ':' post := by
+  rw [joinSep_append _ _ _ (wrapE_ne_nil pre) (by simp), joinSep_wrapE,
+    show ([] : Str) :: wrapE post = [[]] ++ wrapE post from rfl,
+    joinSep_append _ _ _ (by simp) (wrapE_ne_nil post), joinSep_wrapE]
+  simp [joinSep]
+
+theorem mem_joinSep (c : Char) (l : List Str) (x : Char) (h : x ∈ joinSep c l) :
+    x = c ∨ ∃ g ∈ l, x ∈ g := by
+  induction l with
+  | nil => simp [joinSep] at h
+  | cons g gs ih =>
+    cases gs with
+    | nil => exact .inr ⟨g, by simp, h⟩
+    | cons g' gs' =>
+      simp only [joinSep, List.mem_append, List.mem_cons] at h
+      rcases h with h | h | h
+      · exact .inr ⟨g, by simp, h⟩
+      · exact .inl h
+      · rcases ih h with h | ⟨g2, hg2, hx⟩
+        · exact .inl h
+        · exact .inr ⟨g2, List.mem_cons_of_mem _ hg2, hx⟩
+
+theorem ipv6Tail_noDot (parts : List Str) (h : ∀ p ∈ parts, p.contains '.' = false) :
+    ipv6Tail parts = some parts := by
+  unfold ipv6Tail
+  split
+  · rfl
+  · rename_i last hlast
+    rw [h last (List.mem_of_getLast? hlast)]
+    rfl
+
+theorem dot_mem_quad (a b c d : Nat) : (quad a b c d).contains '.' = true := by
+  rw [List.contains_iff_mem]; simp [quad]
+
+theorem ipv6Tail_quad (front : List Str) (a b c d : Nat) (ha : a < 256) (hb : b < 256)
+    (hc : c < 256) (hd : d < 256) :
+    ipv6Tail (front ++ [quad a b c d]) =
+      some (front ++ [hexStr (a * 256 + b), hexStr (c * 256 + d)]) := by
+  unfold ipv6Tail
+  rw [List.getLast?_concat]
+  simp only [dot_mem_quad, if_true, List.dropLast_concat]
+  rw [(ipv4Parse_iff _ [a, b, c, d]).mpr ⟨a, b, c, d, ha, hb, hc, hd, rfl, rfl⟩]
+
+theorem ipv6Tail_some (front : List Str) (last : Str) (parts' : List Str)
+    (h : ipv6Tail (front ++ [last]) = some parts') :
+    (last.contains '.' = false ∧ parts' = front ++ [last]) ∨
+    ∃ a b c d, a < 256 ∧ b < 256 ∧ c < 256 ∧ d < 256 ∧ last = quad a b c d ∧
+      parts' = front ++ [hexStr (a * 256 + b), hexStr (c * 256 + d)] := by
+  unfold ipv6Tail at h
+  rw [List.getLast?_concat] at h
+  simp only [List.dropLast_concat] at h
+  split at h
+  · right
+    cases hp : ipv4Parse last with
+    | none => rw [hp] at h; cases h
+    | some l =>
+      obtain ⟨a, b, c, d, ha, hb, hc, hd, rfl, hq⟩ := (ipv4Parse_iff last l).mp hp
+      rw [hp] at h
+      simp only [Option.some.injEq] at h
+      exact ⟨a, b, c, d, ha, hb, hc, hd, hq, h.symm⟩
+  · left
+    rename_i hd
+    simp only [Option.some.injEq] at h
+    exact ⟨by simpa using hd, h.symm⟩
+
+/-! ### (j) IPv6: `_ip_int_from_string` against the grammar -/
+
+theorem ipv6Ok_of_parts (parts parts' : List Str) (hlen : 3 ≤ parts.length)
+    (hc : ∀ p ∈ parts, ':' ∉ p) (ht : ipv6Tail parts = some parts')
+    (hok : ipv6PartsOk parts' = true) : ipv6Ok (joinSep ':' parts) = true := by
+  have hne : parts ≠ [] := by rintro rfl; simp at hlen
+  have hsp := splitOn_joinSep ':' parts hne hc
+  have hnil : (joinSep ':' parts).isEmpty = false := by
+    rw [List.isEmpty_eq_false_iff]
+    intro h
+    rw [h] at hsp
+    rw [← hsp] at hlen
+    simp [splitOn] at hlen
+  unfold ipv6Ok
+  rw [hnil, hsp, ht]
+  simp only [Bool.false_eq_true, if_false]
+  rw [if_neg (by omega)]
+  exact hok
+
+theorem ipv6Ok_parts (s : Str) (h : ipv6Ok s = true) :
+    ∃ parts', 3 ≤ (splitOn ':' s).length ∧ ipv6Tail (splitOn ':' s) = some parts' ∧
+      ipv6PartsOk parts' = true := by
+  unfold ipv6Ok at h
+  split at h; · cases h
+  split at h; · cases h
+  rename_i _ hlen
+  split at h
+  · cases h
+  · rename_i parts' ht
+    exact ⟨parts', by omega, ht, h⟩
+
+theorem colon_not_mem_hexGroup (g : Str) (hg : Spec.isHexGroup g) : ':' ∉ g :=
+  fun h => absurd (hg.2.2 _ h) (by decide)
+
+theorem dot_not_mem_hexGroup (g : Str) (hg : Spec.isHexGroup g) : g.contains '.' = false := by
+  rw [Bool.eq_false_iff, Ne, List.contains_iff_mem]
+  exact fun h => absurd (hg.2.2 _ h) (by decide)
+
+theorem colon_not_mem_quad (a b c d : Nat) : ':' ∉ quad a b c d := by
+  intro h
+  rcases mem_quad a b c d _ h with h | h
+  · exact absurd h (by decide)
+  · exact absurd h (by decide)
+
+theorem isIpv4Text_quad (t : Str) (h : Spec.isIpv4Text t) :
+    ∃ a b c d, a < 256 ∧ b < 256 ∧ c < 256 ∧ d < 256 ∧ t = quad a b c d := h
+
+theorem quad_isIpv4Text (a b c d : Nat) (ha : a < 256) (hb : b < 256) (hc : c < 256) (hd : d < 256) :
+    Spec.isIpv4Text (quad a b c d) := ⟨a, b, c, d, ha, hb, hc, hd, rfl⟩
+
+theorem all_hextetOk (gs : List Str) (h : ∀ g ∈ gs, Spec.isHexGroup g) :
+    ∀ p ∈ gs, hextetOk p = true := fun p hp => (hextetOk_iff p).mpr (h p hp)
+
+/-- form 1 (no `::`) is accepted -/
+theorem ipv6Ok_form1 (gs : List Str) (tail : Option Str) (hgs : ∀ g ∈ gs, Spec.isHexGroup g)
+    (ht : ∀ t ∈ tail, Spec.isIpv4Text t) (hlen : gs.length + Spec.tailWidth tail = 8) :
+    ipv6Ok (joinSep ':' (gs ++ tail.toList)) = true := by
+  cases tail with
+  | none =>
+    simp only [Spec.tailWidth, Nat.add_zero] at hlen
+    simp only [Option.toList_none, List.append_nil]
+    refine ipv6Ok_of_parts gs gs (by omega) (fun p hp => colon_not_mem_hexGroup p (hgs p hp))
+      (ipv6Tail_noDot gs (fun p hp => dot_not_mem_hexGroup p (hgs p hp)))
+      (partsOk_noskip gs hlen (all_hextetOk gs hgs))
+  | some t =>
+    simp only [Spec.tailWidth] at hlen
+    obtain ⟨a, b, c, d, ha, hb, hc, hd, rfl⟩ := isIpv4Text_quad t (ht t rfl)
+    simp only [Option.toList_some]
+    refine ipv6Ok_of_parts _ _ (by simp; omega) ?_ (ipv6Tail_quad gs a b c d ha hb hc hd)
+      (partsOk_noskip _ (by simp; omega) ?_)
+    · intro p hp
+      rcases List.mem_append.mp hp with hp | hp
+      · exact colon_not_mem_hexGroup p (hgs p hp)
+      · rw [List.mem_singleton] at hp; subst hp; exact colon_not_mem_quad a b c d
+    · intro p hp
+      simp only [List.mem_append, List.mem_cons, List.not_mem_nil, or_false] at hp
+      rcases hp with hp | rfl | rfl
+      · exact all_hextetOk gs hgs p hp
+      · exact hexStr_ok _ (by omega)
+      · exact hexStr_ok _ (by omega)
+
+/-- form 2 (one `::`) is accepted -/
+theorem ipv6Ok_form2 (pre post : List Str) (tail : Option Str) (hpre : ∀ g ∈ pre, Spec.isHexGroup g)
+    (hpost : ∀ g ∈ post, Spec.isHexGroup g) (ht : ∀ t ∈ tail, Spec.isIpv4Text t)
+    (hlen : pre.length + post.length + Spec.tailWidth tail ≤ 7) :
+    ipv6Ok (joinSep ':' pre ++ [':', ':'] ++ joinSep ':' (post ++ tail.toList)) = true := by
+  rw [← joinSep_skip]
+  have hcw : ∀ (l : List Str), (∀ p ∈ l, ':' ∉ p) → ∀ p ∈ wrapE l, ':' ∉ p := by
+    intro l hl p hp
+    unfold wrapE at hp
+    split at hp
+    · rw [List.mem_singleton] at hp; subst hp; simp
+    · exact hl p hp
+  have hlen3 : ∀ X Y : List Str, 3 ≤ (wrapE X ++ [] :: wrapE Y).length := by
+    intro X Y
+    have := List.length_pos_iff.mpr (wrapE_ne_nil X)
+    have := List.length_pos_iff.mpr (wrapE_ne_nil Y)
+    simp only [List.length_append, List.length_cons]; omega
+  cases tail with
+  | none =>
+    simp only [Spec.tailWidth, Nat.add_zero] at hlen
+    simp only [Option.toList_none, List.append_nil]
+    refine ipv6Ok_of_parts _ _ (hlen3 _ _) ?_ (ipv6Tail_noDot _ ?_)
+      ((partsOk_iff _).mpr (.inr ⟨pre, post, all_hextetOk pre hpre, all_hextetOk post hpost, hlen, rfl⟩))
+    · intro p hp
+      rcases List.mem_append.mp hp with hp | hp
+      · exact hcw pre (fun p hp => colon_not_mem_hexGroup p (hpre p hp)) p hp
+      · rcases List.mem_cons.mp hp with rfl | hp
+        · simp
+        · exact hcw post (fun p hp => colon_not_mem_hexGroup p (hpost p hp)) p hp
+    · have hdw : ∀ (l : List Str), (∀ g ∈ l, Spec.isHexGroup g) → ∀ p ∈ wrapE l, p.contains '.' = false := by
+        intro l hl p hp
+        unfold wrapE at hp
+        split at hp
+        · rw [List.mem_singleton] at hp; subst hp; rfl
+        · exact dot_not_mem_hexGroup p (hl p hp)
+      intro p hp
+      rcases List.mem_append.mp hp with hp | hp
+      · exact hdw pre hpre p hp
+      · rcases List.mem_cons.mp hp with rfl | hp
+        · rfl
+        · exact hdw post hpost p hp
+  | some t =>
+    simp only [Spec.tailWidth] at hlen
+    obtain ⟨a, b, c, d, ha, hb, hc, hd, rfl⟩ := isIpv4Text_quad t (ht t rfl)
+    simp only [Option.toList_some]
+    rw [wrapE_of_ne (post ++ [quad a b c d]) (by simp)]
+    have hre : wrapE pre ++ [] :: (post ++ [quad a b c d]) =
+        (wrapE pre ++ [] :: post) ++ [quad a b c d] := by simp
+    refine ipv6Ok_of_parts _ ((wrapE pre ++ [] :: post) ++ [hexStr (a * 256 + b), hexStr (c * 256 + d)])
+      ?_ ?_ (by rw [hre]; exact ipv6Tail_quad _ a b c d ha hb hc hd) ?_
+    · have := List.length_pos_iff.mpr (wrapE_ne_nil pre)
+      simp only [List.length_append, List.length_cons, List.length_nil]; omega
+    · intro p hp
+      rcases List.mem_append.mp hp with hp | hp
+      · exact hcw pre (fun p hp => colon_not_mem_hexGroup p (hpre p hp)) p hp
+      · rcases List.mem_cons.mp hp with rfl | hp
+        · simp
+        · rcases List.mem_append.mp hp with hp | hp
+          · exact colon_not_mem_hexGroup p (hpost p hp)
+          · rw [List.mem_singleton] at hp; subst hp; exact colon_not_mem_quad a b c d
+    · refine (partsOk_iff _).mpr (.inr ⟨pre, post ++ [hexStr (a * 256 + b), hexStr (c * 256 + d)],
+        all_hextetOk pre hpre, ?_, by simp; omega, ?_⟩)
+      · intro p hp
+        simp only [List.mem_append, List.mem_cons, List.not_mem_nil, or_false] at hp
+        rcases hp with hp | rfl | rfl
+        · exact all_hextetOk post hpost p hp
+        · exact hexStr_ok _ (by omega)
+        · exact hexStr_ok _ (by omega)
+      · rw [wrapE_of_ne (post ++ [hexStr (a * 256 + b), hexStr (c * 256 + d)]) (by simp)]; simp
+
+theorem suffix_surgery (X front post : List Str) (h1 h2 : Str) (hh1 : h1 ≠ [])
+    (h : X ++ [] :: wrapE post = front ++ [h1, h2]) :
+    ∃ q, post = q ++ [h1, h2] ∧ front = X ++ [] :: q := by
+  rcases List.eq_nil_or_concat post with rfl | ⟨q1, y, hc⟩
+  · have e : X ++ [] :: wrapE [] = X ++ [[], []] := by simp [wrapE]
+    rw [e] at h
+    have := (List.append_inj' h rfl).2
+    simp only [List.cons.injEq] at this
+    exact absurd this.1.symm hh1
+  · rw [List.concat_eq_append] at hc; subst hc
+    rw [wrapE_of_ne _ (by simp)] at h
+    rcases List.eq_nil_or_concat q1 with rfl | ⟨q, x, hc⟩
+    · have e : X ++ [] :: ([] ++ [y]) = X ++ [[], y] := by simp
+      rw [e] at h
+      have := (List.append_inj' h rfl).2
+      simp only [List.cons.injEq] at this
+      exact absurd this.1.symm hh1
+    · rw [List.concat_eq_append] at hc; subst hc
+      have e : X ++ [] :: (q ++ [x] ++ [y]) = (X ++ [] :: q) ++ [x, y] := by simp
+      rw [e] at h
+      obtain ⟨e1, e2⟩ := List.append_inj' h rfl
+      simp only [List.cons.injEq, and_true] at e2
+      obtain ⟨rfl, rfl⟩ := e2
+      exact ⟨q, by simp, e1.symm⟩
+
+theorem all_isHexGroup (gs : List Str) (h : ∀ p ∈ gs, hextetOk p = true) :
+    ∀ g ∈ gs, Spec.isHexGroup g := fun p hp => (hextetOk_iff p).mp (h p hp)
+
+theorem ipv6Ok_spec (s : Str) (h : ipv6Ok s = true) : Spec.isIpv6Text s := by
+  obtain ⟨parts', hlen, ht, hok⟩ := ipv6Ok_parts s h
+  obtain ⟨hj, _⟩ := splitOn_spec ':' s
+  rcases List.eq_nil_or_concat (splitOn ':' s) with hnil | ⟨front, last, hc⟩
+  · exact absurd hnil (splitOn_ne_nil ':' s)
+  rw [List.concat_eq_append] at hc
+  rw [hc] at ht hj
+  unfold Spec.isIpv6Text
+  simp only [colonJoin_eq]
+  rcases ipv6Tail_some front last parts' ht with ⟨_, rfl⟩ | ⟨a, b, c, d, ha, hb, hc', hd, rfl, rfl⟩
+  · -- no IPv4 suffix
+    rcases (partsOk_iff _).mp hok with ⟨h8, hall⟩ | ⟨pre, post, hpre, hpost, hl, hparts⟩
+    · left
+      exact ⟨front ++ [last], none, all_isHexGroup _ hall, by simp, by simpa [Spec.tailWidth] using h8,
+        by simp [hj]⟩
+    · right
+      refine ⟨pre, post, none, all_isHexGroup _ hpre, all_isHexGroup _ hpost, by simp,
+        by simpa [Spec.tailWidth] using hl, ?_⟩
+      rw [← hj, hparts, joinSep_skip]; simp
+  · -- IPv4 suffix
+    have hq := quad_isIpv4Text a b c d ha hb hc' hd
+    rcases (partsOk_iff _).mp hok with ⟨h8, hall⟩ | ⟨pre, post, hpre, hpost, hl, hparts⟩
+    · left
+      refine ⟨front, some (quad a b c d), all_isHexGroup _ (fun p hp => hall p (by simp [hp])), ?_, ?_, ?_⟩
+      · intro t ht'; cases ht'; exact hq
+      · simp only [List.length_append, List.length_cons, List.length_nil] at h8
+        simp only [Spec.tailWidth]; omega
+      · simp [hj]
+    · right
+      obtain ⟨q, rfl, rfl⟩ := suffix_surgery (wrapE pre) front post _ _
+        (hextetOk_ne_nil _ (hexStr_ok _ (by omega))) hparts.symm
+      refine ⟨pre, q, some (quad a b c d), all_isHexGroup _ hpre,
+        all_isHexGroup _ (fun p hp => hpost p (by simp [hp])), ?_, ?_, ?_⟩
+      · intro t ht'; cases ht'; exact hq
+      · simp only [List.length_append, List.length_cons, List.length_nil] at hl
+        simp only [Spec.tailWidth]; omega
+      · rw [← hj]
+        have : (wrapE pre ++ [] :: q) ++ [quad a b c d] = wrapE pre ++ [] :: wrapE (q ++ [quad a b c d]) := by
+          rw [wrapE_of_ne (q ++ [quad a b c d]) (by simp)]; simp
+        rw [this, joinSep_skip]; simp
+
+theorem isIpv6Text_ok (s : Str) (h : Spec.isIpv6Text s) : ipv6Ok s = true := by
+  unfold Spec.isIpv6Text at h
+  simp only [colonJoin_eq] at h
+  rcases h with ⟨gs, tail, hgs, ht, hlen, rfl⟩ | ⟨pre, post, tail, hpre, hpost, ht, hlen, rfl⟩
+  · exact ipv6Ok_form1 gs tail hgs ht hlen
+  · exact ipv6Ok_form2 pre post tail hpre hpost ht hlen
+
+theorem ipv6Ok_iff (s : Str) : ipv6Ok s = true ↔ Spec.isIpv6Text s :=
+  ⟨ipv6Ok_spec s, isIpv6Text_ok s⟩
+
+/-! ### (k) IPv6: `IPv6Address` and `is_ipv6` -/
+
+/-- neither a prefix length nor a zone id can be written -/
+def plainChar (c : Char) : Prop := c ≠ '/' ∧ c ≠ '%'
+
+theorem plain_of_hex : ∀ c ∈ Spec.hexChars, plainChar c := by unfold plainChar; decide
+
+theorem plain_of_unit (gs : List Str) (tail : Option Str) (hgs : ∀ g ∈ gs, Spec.isHexGroup g)
+    (ht : ∀ t ∈ tail, Spec.isIpv4Text t) : ∀ u ∈ gs ++ tail.toList, ∀ c ∈ u, plainChar c := by
+  intro u hu c hc
+  rcases List.mem_append.mp hu with hu | hu
+  · exact plain_of_hex c ((hgs u hu).2.2 c hc)
+  · rw [Option.mem_toList] at hu
+    obtain ⟨a, b, c', d, _, _, _, _, rfl⟩ := isIpv4Text_quad u (ht u hu)
+    rcases mem_quad _ _ _ _ c hc with h | rfl
+    · constructor <;> (rintro rfl; exact absurd h (by decide))
+    · constructor <;> decide
+
+theorem plain_of_joinSep (l : List Str) (h : ∀ u ∈ l, ∀ c ∈ u, plainChar c) :
+    ∀ c ∈ joinSep ':' l, plainChar c := by
+  intro c hc
+  rcases mem_joinSep ':' l c hc with rfl | ⟨g, hg, hx⟩
+  · constructor <;> decide
+  · exact h g hg c hx
+
+theorem isIpv6Text_plain (s : Str) (h : Spec.isIpv6Text s) : ∀ c ∈ s, plainChar c := by
+  unfold Spec.isIpv6Text at h
+  simp only [colonJoin_eq] at h
+  rcases h with ⟨gs, tail, hgs, ht, _, rfl⟩ | ⟨pre, post, tail, hpre, hpost, ht, _, rfl⟩
+  · exact plain_of_joinSep _ (plain_of_unit gs tail hgs ht)
+  · intro c hc
+    simp only [List.mem_append, List.mem_cons, List.not_mem_nil, or_false] at hc
+    rcases hc with (hc | hc | hc) | hc
+    · exact plain_of_joinSep pre (fun u hu c hc => plain_of_hex c ((hpre u hu).2.2 c hc)) c hc
+    · subst hc; constructor <;> decide
+    · subst hc; constructor <;> decide
+    · exact plain_of_joinSep _ (plain_of_unit post tail hpost ht) c hc
+
+theorem takeWhile_all (p : Char → Bool) (s : Str) (h : ∀ c ∈ s, p c = true) : s.takeWhile p = s := by
+  induction s with
+  | nil => rfl
+  | cons x xs ih =>
+    rw [List.takeWhile_cons, if_pos (h x (by simp)), ih (fun c hc => h c (List.mem_cons_of_mem _ hc))]
+
+theorem dropWhile_all (p : Char → Bool) (s : Str) (h : ∀ c ∈ s, p c = true) : s.dropWhile p = [] := by
+  induction s with
+  | nil => rfl
+  | cons x xs ih =>
+    rw [List.dropWhile_cons, if_pos (h x (by simp))]
+    exact ih (fun c hc => h c (List.mem_cons_of_mem _ hc))
+
+theorem span_all (p : Char → Bool) (s : Str) (h : ∀ c ∈ s, p c = true) : s.span p = (s, []) := by
+  rw [List.span_eq_takeWhile_dropWhile, takeWhile_all p s h, dropWhile_all p s h]
+
+theorem span_snd_nil (p : Char → Bool) (s a : Str) (h : s.span p = (a, [])) : a = s := by
+  rw [List.span_eq_takeWhile_dropWhile] at h
+  have := List.takeWhile_append_dropWhile (p := p) (l := s)
+  simp only [Prod.mk.injEq] at h
+  rw [h.1, h.2, List.append_nil] at this
+  exact this
+
+theorem ipv6Address_false_iff (s : Str) : ipv6Address s = some false ↔ Spec.isIpv6Text s := by
+  constructor
+  · intro h
+    unfold ipv6Address at h
+    split at h; · cases h
+    split at h
+    · rename_i addr hsp
+      split at h
+      · rename_i hok
+        rw [span_snd_nil _ _ _ hsp] at hok
+        exact ipv6Ok_spec s hok
+      · cases h
+    · split at h
+      · cases h
+      · split at h <;> cases h
+  · intro h
+    have hp := isIpv6Text_plain s h
+    have hslash : s.contains '/' = false := by
+      rw [Bool.eq_false_iff, Ne, List.contains_iff_mem]
+      exact fun hm => (hp _ hm).1 rfl
+    have hspan : s.span (· != '%') = (s, []) :=
+      span_all _ s (fun c hc => by simpa using (hp c hc).2)
+    unfold ipv6Address
+    rw [hslash, hspan]
+    simp [isIpv6Text_ok s h]
+
+theorem fmtIpv6_iff (s : Str) : fmtIpv6 (.str s) = .ret true ↔ Spec.isIpv6Text s := by
+  rw [← ipv6Address_false_iff]
+  simp only [fmtIpv6]
+  cases ipv6Address s with
+  | none => simp
+  | some b => cases b <;> simp
 
 end JS.Fmt
